@@ -1461,6 +1461,8 @@ func (se *SessionExecutor) rollback() (err error) {
 	se.status &= ^mysql.ServerStatusInTrans
 	for _, pc := range se.txConns {
 		if pc.IsClosed() {
+			// nothing to roll back, but the pool slot must still be released
+			pc.Recycle()
 			continue
 		}
 		err = pc.Rollback()
